@@ -1,5 +1,6 @@
 /* drv_prep.c — MatrixPreprocess fit / apply, TensorPreprocess (C10) */
 #include "proto.h"
+static int same_obs(matrix *a, matrix *b, matrix *orig){ size_t i, j; if(a->row != b->row || a->col != b->col) return 0; for(i = 0; i < a->row; i++) for(j = 0; j < a->col; j++){ double x = orig->data[i][j]; if(x > MISSING - 0.1 && x < MISSING + 0.1) continue; if(!same_d(a->data[i][j], b->data[i][j])) return 0; } return 1; }
 int main(void)
 {
   char op[64];
@@ -11,11 +12,24 @@ int main(void)
       NewMatrix(&tr, m->row, m->col);
       MatrixPreprocess(m, (int)ty, avg, sc, tr);
       pr_matrix("trans", tr); pr_dvector("avg", avg); pr_dvector("scale", sc);
+      reuse_mask = 0;
+      { /* the same fit into an output matrix that already holds numbers (the previous result; junk); cells whose input
+           carries the missing-value code are not written by the routine and are left out of the comparison */
+#define SAME_OBS(a, b) same_obs(a, b, m)
+        matrix *k = dup_matrix(tr); dvector *a2, *s2;
+        initDVector(&a2); initDVector(&s2); MatrixPreprocess(m, (int)ty, a2, s2, tr);
+        RB(0, SAME_OBS(tr, k)); RB(1, same_v(a2, avg) && same_v(s2, sc)); DelDVector(&a2); DelDVector(&s2);
+        initDVector(&a2); initDVector(&s2); junk_m(tr); MatrixPreprocess(m, (int)ty, a2, s2, tr);
+        RB(0, SAME_OBS(tr, k)); RB(1, same_v(a2, avg) && same_v(s2, sc)); DelDVector(&a2); DelDVector(&s2);
+        DelMatrix(&k); }
       /* apply the stored statistics to the same matrix and to new rows */
       if(ty >= 0){
-        NewMatrix(&ap, m->row, m->col); MatrixPreprocess(m, (int)ty, avg, sc, ap); pr_matrix("apply_same", ap); DelMatrix(&ap);
+        NewMatrix(&ap, m->row, m->col); MatrixPreprocess(m, (int)ty, avg, sc, ap); pr_matrix("apply_same", ap);
+        { matrix *k = dup_matrix(ap); junk_m(ap); MatrixPreprocess(m, (int)ty, avg, sc, ap); RB(2, same_m(ap, k)); DelMatrix(&k); }
+        DelMatrix(&ap);
         NewMatrix(&ap2, newrows->row, newrows->col); MatrixPreprocess(newrows, (int)ty, avg, sc, ap2); pr_matrix("apply_new", ap2); DelMatrix(&ap2);
       }
+      pr_long("reuse_bad", reuse_mask);
       DelMatrix(&tr); DelDVector(&avg); DelDVector(&sc); DelMatrix(&m); DelMatrix(&newrows);
     }
     else if(!strcmp(op, "tprep")){
